@@ -183,22 +183,17 @@ MVV(s) == Un("MultiVectorVariable", Str(s))
 FamHier == <<
     MVV("x"), MVV("y"), Var("x"),
     Bin("UMVTag", Str("x"), One), Bin("UMVTag", Str("x"), OneF), Bin("UMVTag", Str("x"), Two),
-    Bin("UMVTag", Str("x"), M1), Bin("UMVTag", Str("x"), M2), Bin("UMVTag", Str("y"), One),
-    Bin("UMVTag", CStr("p"), One), Bin("UMVTag", CStr("q"), One) >>
+    Bin("UMVTag", Str("x"), M1), Bin("UMVTag", Str("x"), M2), Bin("UMVTag", Str("y"), One) >>
 FamHierU == <<
     U3("ULegGrand", One, Two, Three), U3("ULegGrand", One, Two, KF(3, 1)), U3("ULegGrand", One, Two, KI(4)),
     U3("ULegGrand", One, Two, M1), U3("ULegGrand", One, Two, M2), U3("ULegGrand", M1, Two, Three),
     U3("ULegGrand", M2, Two, Three),
-    U3("ULegChildPlain", One, Two, Three), U3("ULegChildPlain", One, Two, KI(4)),
-    U3("ULegChildPlain", One, Two, M1), U3("ULegChildPlain", One, Two, M2),
-    U3("ULegChild", One, Two, Three),
-    Bin("UPlain2", One, Two), Bin("UPlain2", One, Three), Bin("UPlain2", One, M1), Bin("UPlain2", One, M2),
-    Bin("UPlain", One, Two) >>
+    U3("ULegChildPlain", One, Two, Three), U3("ULegChildPlain", One, Two, M1), U3("ULegChildPlain", One, Two, M2),
+    Bin("UPlain2", One, Two), Bin("UPlain2", One, M1), Bin("UPlain2", One, M2) >>
 FamHierD == <<
     U4("ULegGrandD", One, Two, Three, KI(4)), U4("ULegGrandD", One, Two, Three, KF(4, 1)),
-    U4("ULegGrandD", One, Two, Three, KI(5)), U4("ULegGrandD", One, Two, Three, M1),
-    U4("ULegGrandD", One, Two, Three, M2), U4("ULegGrandD", One, Two, M1, KI(4)),
-    U4("ULegGrandD", One, Two, M2, KI(4)), U3("UChild", One, Two, Three) >>
+    U4("ULegGrandD", One, Two, Three, M1), U4("ULegGrandD", One, Two, Three, M2),
+    U4("ULegGrandD", One, Two, M1, KI(4)), U4("ULegGrandD", One, Two, M2, KI(4)) >>
 
 \* (instances of the ancestors ..., two instances of the leaf class): the leaf instances
 \* differ in the argument the leaf class adds / differ there with colliding hashes /
@@ -226,6 +221,20 @@ HierTuples == {
     \* the whole chain: root, middle, two leaves
     << Bin("URoot", One, Two), Bin("UPlain", One, Two), U3("ULegGrand", One, Two, Three), U3("ULegGrand", One, Two, KI(4)) >>,
     << Var("x"), MVV("x"), Bin("UMVTag", Str("x"), One), Bin("UMVTag", Str("x"), Two) >> }
+\* quick tier: per hierarchy shape the "differ" and the "colliding" variant
+HierTuplesQuick == {
+    << Bin("UPlain", One, Two), U3("ULegGrand", One, Two, Three), U3("ULegGrand", One, Two, KI(4)) >>,
+    << Bin("UPlain", One, Two), U3("ULegGrand", One, Two, M1), U3("ULegGrand", One, Two, M2) >>,
+    << MVV("x"), Bin("UMVTag", Str("x"), One), Bin("UMVTag", Str("x"), Two) >>,
+    << MVV("x"), Bin("UMVTag", Str("x"), M1), Bin("UMVTag", Str("x"), M2) >>,
+    << U3("UChild", One, Two, Three), U4("ULegGrandD", One, Two, Three, KI(4)), U4("ULegGrandD", One, Two, Three, KI(5)) >>,
+    << U3("ULegChild", One, Two, Three), U3("ULegChildPlain", One, Two, Three), U3("ULegChildPlain", One, Two, KI(4)) >>,
+    << U3("ULegChild", One, Two, Three), U3("ULegChildPlain", One, Two, M1), U3("ULegChildPlain", One, Two, M2) >>,
+    << Bin("UPlain", One, M1), Bin("UPlain2", One, M1), Bin("UPlain2", One, M2) >>,
+    << Bin("UPlain", One, Two), U3("ULegChild", One, Two, Three), U3("ULegChild", One, Two, KI(4)) >>,
+    << Bin("UPlain", One, Two), U3("ULegChild", One, Two, M1), U3("ULegChild", One, Two, M2) >>,
+    << Un("UVar", Str("x")), Bin("UMVTag", Str("x"), One), Bin("UMVTag", Str("x"), Two) >>,
+    << U3("ULegChild", One, Two, Three), Bin("UPlain", One, Two), Bin("UPlain", One, Three) >> }
 HierSmall == {
     << Bin("UPlain", One, Two), U3("ULegGrand", One, Two, Three), U3("ULegGrand", One, Two, KI(4)) >>,
     << MVV("x"), Bin("UMVTag", Str("x"), M1), Bin("UMVTag", Str("x"), M2) >> }
